@@ -67,7 +67,9 @@ def run(c):
               "NUL, multi-byte UTF-8 or raw bytes; extreme ints; -0, Inf, NaN payloads); ops = decode of the bare and boxed Go bytes with "
               "trailing bytes, two truncations, three one-byte mutations, the function result, and the decode of an empty/mixed value B by "
               "a string- and a []byte-variant object that has just read a fully populated value A (reused destination); every 16th case "
-              "is a frame case (empty, incompressible, compressible, equal-size, boundary, damaged frames), every other 16th a TL2 case "
+              "is a frame case (empty, incompressible, compressible, equal-size, boundary, damaged frames, plus a batch of 14 weakly "
+              "compressible payloads each: random bodies of 64 B..64 KiB, dense at 3-5 KiB, with one 4-32 byte repeat a few bytes before "
+              "the end or several scattered repeats), every other 16th a TL2 case "
               "(size codec at every form boundary and random sizes, arbitrary headers, strings of boundary lengths, and a sweep of one "
               "planted string through a generated TL2 type so that every enclosing object/vector/dictionary body takes each size "
               "around 254 and 65790 exactly). Non-trivial = encoding longer than 8 bytes, or a mutant the "
